@@ -351,6 +351,8 @@ package keeper
 //@   modifies ent_store
 //@   ensures (err == nil) == (len(address) >= 1)
 //@   ensures err == nil ==> wlHas(ent_store, bytesval(address)) && ent_store == old(ent_store)[kWhitelist(bytesval(address)) := ent_store[kWhitelist(bytesval(address))]]
+//@   ensures @stored_value_is_the_address err == nil ==> bytesval(ent_store[kWhitelist(bytesval(address))]) == bytesval(address) && len(ent_store[kWhitelist(bytesval(address))]) == len(address)
+//@   ensures @whitelist_stays_wellformed derived ENT_WL_WF(old(ent_store)) ==> ENT_WL_WF(ent_store)
 //@   ensures err != nil ==> ent_store == old(ent_store)
 
 //@ func Keeper.RemoveAddressFromWhitelist(ctx, address) (err)
@@ -360,6 +362,7 @@ package keeper
 //@   ensures (err == nil) == (len(address) >= 1)
 //@   ensures err == nil ==> !wlHas(ent_store, bytesval(address)) && ent_store == old(ent_store)[kWhitelist(bytesval(address)) := ent_store[kWhitelist(bytesval(address))]]
 //@   ensures err != nil ==> ent_store == old(ent_store)
+//@   ensures @whitelist_stays_wellformed derived ENT_WL_WF(old(ent_store)) ==> ENT_WL_WF(ent_store)
 
 //@ func Keeper.ProcessWhitelistAction(ctx, address, action, signer) (err)
 //@   props C03 C13
@@ -370,6 +373,7 @@ package keeper
 //@   ensures @remove err == nil && action == 2 ==> wlHas(old(ent_store), a) && !wlHas(ent_store, a)
 //@   ensures @only_that_entry err == nil ==> ent_store == old(ent_store)[kWhitelist(a) := ent_store[kWhitelist(a)]]
 //@   ensures @rejected_changes_nothing err != nil ==> ent_store == old(ent_store)
+//@   ensures @whitelist_stays_wellformed ENT_WL_WF(old(ent_store)) ==> ENT_WL_WF(ent_store)
 
 //@ func Keeper.GetParamEntSigners(ctx) (r)
 //@   props C03 C13 C16
@@ -499,6 +503,7 @@ package keeper
 //@   ensures @exactly_that_address err == nil ==> validBech32(msg.Address) && (msg.Action == 1 || msg.Action == 2) && wlHas(ent_store, a) == (msg.Action == 1) && wlHas(s0, a) == (msg.Action == 2)
 //@   ensures @frame err == nil ==> ent_store == s0[kWhitelist(a) := ent_store[kWhitelist(a)]]
 //@   ensures @invariants_kept [C14] ENT_ALL(s0) ==> ENT_ALL(ent_store)
+//@   ensures @whitelist_stays_wellformed [C20 C15 C03] ENT_WL_WF(s0) ==> ENT_WL_WF(ent_store)
 
 //@ func msgServer.UpdateParams(goCtx, req) (resp, err)
 //@   props C13 C16
@@ -735,10 +740,30 @@ package keeper
 
 //@ func Keeper.IterateWhitelist(ctx, cb)
 //@   inline
-//@ func Keeper.GetAllWhitelistedAddresses(ctx) (r)
-//@   props C15
+// The whitelist listing (genesis export and the Whitelist query, C15 / C20): every entry under the whitelist prefix holds
+// the address it is keyed by (written only by AddAddressToWhitelist, whose contract says so), so the listing is the
+// set of whitelisted addresses - each exactly once, in key order, as a spelling that decodes back to the address.
+//@ func Keeper.GetAllWhitelistedAddresses(ctx) (addresses)
+//@   props C15 C20
 //@   pure
-//@   loop IterateWhitelist.0: invariant it_store == ent_store && ent_store == old(ent_store)
+//@   requires ENT_WL_WF(ent_store)
+//@   ensures @only_whitelisted forall j int :: {addresses[j]} 0 <= j && j < len(addresses) ==> validBech32(addresses[j]) && wlHas(ent_store, bytesval(addrOf(addresses[j])))
+//@   ensures @every_whitelisted_address forall a `BytesV` :: {ent_store[kWhitelist(a)]} wlHas(ent_store, a) ==> exists j int :: 0 <= j && j < len(addresses) && bytesval(addrOf(addresses[j])) == a
+//@   ensures @each_once_in_key_order forall i int, j int :: {addresses[i], addresses[j]} 0 <= i && i < j && j < len(addresses) ==> bvLt(bytesval(addrOf(addresses[i])), bytesval(addrOf(addresses[j])))
+//@   loop IterateWhitelist.0: invariant it_store == ent_store && ent_store == old(ent_store) && len(addresses) >= 0
+//@   loop IterateWhitelist.0: invariant it_valid ==> wlHas(ent_store, whitelistKeyAddr(it_key)) && it_key == kWhitelist(whitelistKeyAddr(it_key))
+//@   loop IterateWhitelist.0: invariant forall j int :: {addresses[j]} 0 <= j && j < len(addresses) ==> validBech32(addresses[j]) && wlHas(ent_store, bytesval(addrOf(addresses[j]))) && (it_valid ==> bvLt(bytesval(addrOf(addresses[j])), whitelistKeyAddr(it_key)))
+//@   loop IterateWhitelist.0: invariant forall i int, j int :: {addresses[i], addresses[j]} 0 <= i && i < j && j < len(addresses) ==> bvLt(bytesval(addrOf(addresses[i])), bytesval(addrOf(addresses[j])))
+//@   loop IterateWhitelist.0: invariant forall a `BytesV` :: {ent_store[kWhitelist(a)]} wlHas(ent_store, a) && (!it_valid || bvLt(a, whitelistKeyAddr(it_key))) ==> exists j int :: 0 <= j && j < len(addresses) && bytesval(addrOf(addresses[j])) == a
+
+//@ func Keeper.Whitelist(c, req) (resp, err)
+//@   props C20
+//@   pure
+//@   requires ENT_WL_WF(ent_store)
+//@   ensures @never_fails err == nil && !ptrnil(resp)
+//@   ensures @only_whitelisted forall j int :: {resp.Addresses[j]} 0 <= j && j < len(resp.Addresses) ==> validBech32(resp.Addresses[j]) && wlHas(ent_store, bytesval(addrOf(resp.Addresses[j])))
+//@   ensures @every_whitelisted_address forall a `BytesV` :: {ent_store[kWhitelist(a)]} wlHas(ent_store, a) ==> exists j int :: 0 <= j && j < len(resp.Addresses) && bytesval(addrOf(resp.Addresses[j])) == a
+//@   ensures @each_once forall i int, j int :: {resp.Addresses[i], resp.Addresses[j]} 0 <= i && i < j && j < len(resp.Addresses) ==> bytesval(addrOf(resp.Addresses[i])) != bytesval(addrOf(resp.Addresses[j]))
 
 // ================================================================ upgrade: parameter migration (C16) - hands the module store to v3.Migrate
 //@ func Migrator.Migrate2to3(ctx) (err)
@@ -773,6 +798,33 @@ package keeper
 //@   pure
 //@   requires ENT_BOOKS_WF(ent_store)
 //@   ensures err == nil ==> validBech32(req.Owner) && Amt(resp.Amount) == lockedAmt(ent_store, bytesval(addrOf(req.Owner))) && resp.Amount.Denom == entDenom(ent_store)
+// The per-account view: locked and spent eFUND as booked, the bank balance, and their sum as what the account can spend on fees.
+//@ func Keeper.GetEnterpriseUserAccount(ctx, owner) (acc)
+//@   props C04 C20
+//@   pure
+//@   requires 1 <= len(owner) && len(owner) <= 255 && ENT_BOOKS_WF(ent_store) && BANK_OK(bank_bal)
+//@   let a := bytesval(owner)
+//@   ensures @locked_as_booked !isnil(acc.LockedEfund.Amount) && Amt(acc.LockedEfund) == lockedAmt(ent_store, a) && acc.LockedEfund.Denom == entDenom(ent_store)
+//@   ensures @spent_as_booked !isnil(acc.SpentEfund.Amount) && Amt(acc.SpentEfund) == spentAmt(ent_store, a) && acc.SpentEfund.Denom == entDenom(ent_store)
+//@   ensures @balance_as_held !isnil(acc.GeneralSupply.Amount) && Amt(acc.GeneralSupply) == balOf(bank_bal, a, entDenom(ent_store)) && acc.GeneralSupply.Denom == entDenom(ent_store)
+//@   ensures @spendable_is_their_sum !isnil(acc.Spendable.Amount) && Amt(acc.Spendable) == balOf(bank_bal, a, entDenom(ent_store)) + lockedAmt(ent_store, a) && acc.Spendable.Denom == entDenom(ent_store)
+//@   ensures @owner validBech32(acc.Owner) && bytesval(addrOf(acc.Owner)) == a
+//@ func Keeper.EnterpriseAccount(c, req) (resp, err)
+//@   props C04 C20
+//@   pure
+//@   requires ENT_BOOKS_WF(ent_store) && BANK_OK(bank_bal)
+//@   ensures err == nil ==> validBech32(req.Address) && Amt(resp.Account.LockedEfund) == lockedAmt(ent_store, bytesval(addrOf(req.Address))) && Amt(resp.Account.SpentEfund) == spentAmt(ent_store, bytesval(addrOf(req.Address))) && Amt(resp.Account.Spendable) == balOf(bank_bal, bytesval(addrOf(req.Address)), entDenom(ent_store)) + lockedAmt(ent_store, bytesval(addrOf(req.Address)))
+//@ func Keeper.GetSpentEFUNDAmountForAccount(ctx, address) (c)
+//@   props C04 C20
+//@   requires 1 <= len(address) && len(address) <= 255 && ENT_BOOKS_WF(ent_store)
+//@   pure
+//@   nopanic
+//@   ensures !isnil(c.Amount) && Amt(c) == spentAmt(ent_store, bytesval(address)) && c.Denom == entDenom(ent_store)
+//@ func Keeper.SpentEFUNDByAddress(c, req) (resp, err)
+//@   props C04 C20
+//@   pure
+//@   requires ENT_BOOKS_WF(ent_store) && !ptrnil(req)
+//@   ensures err == nil ==> validBech32(req.Address) && Amt(resp.Amount) == spentAmt(ent_store, bytesval(addrOf(req.Address))) && resp.Amount.Denom == entDenom(ent_store)
 //@ func Keeper.Whitelisted(c, req) (resp, err)
 //@   props C03 C20
 //@   pure
